@@ -125,6 +125,57 @@ fn parse_session(env: &EnvRef, json: &str) -> Result<Session, String> {
     }
 }
 
+/// Serialise a JSON value with the members of every object in reverse alphabetical order (a store
+/// that does not keep the member order of the document it was given).
+fn to_string_reversed(v: &serde_json::Value, out: &mut String) {
+    match v {
+        serde_json::Value::Object(m) => {
+            out.push('{');
+            for (i, (k, x)) in m.iter().rev().enumerate() {
+                if i > 0 {
+                    out.push(',');
+                }
+                out.push_str(&serde_json::to_string(k).unwrap_or_default());
+                out.push(':');
+                to_string_reversed(x, out);
+            }
+            out.push('}');
+        }
+        serde_json::Value::Array(a) => {
+            out.push('[');
+            for (i, x) in a.iter().enumerate() {
+                if i > 0 {
+                    out.push(',');
+                }
+                to_string_reversed(x, out);
+            }
+            out.push(']');
+        }
+        other => out.push_str(&other.to_string()),
+    }
+}
+
+/// The same document as stored by carriers that re-order object members: sorted and reverse-sorted.
+/// Each is parsed back; `Err` tells which carrier lost or changed something.
+pub fn reordered_roundtrip(env: &EnvRef, json: &str) -> Result<(), String> {
+    let Ok(v) = serde_json::from_str::<serde_json::Value>(json) else { return Ok(()) };
+    let sorted = serde_json::to_string(&v).unwrap_or_default();
+    let mut reversed = String::new();
+    to_string_reversed(&v, &mut reversed);
+    for (name, doc) in [("members sorted", sorted), ("members reverse-sorted", reversed)] {
+        match parse_session(env, &doc) {
+            Ok(s) => {
+                let again = serde_json::to_string(&s).unwrap_or_default();
+                if again != json {
+                    return Err(format!("{name}: restored session serialises to {again} instead of {json}"));
+                }
+            }
+            Err(e) => return Err(format!("{name}: refused: {e}")),
+        }
+    }
+    Ok(())
+}
+
 fn otaa_mode(id: &Identity) -> JoinMode {
     JoinMode::OTAA { deveui: DevEui::from(id.deveui), appeui: AppEui::from(id.appeui), appkey: AppKey::from(id.appkey) }
 }
